@@ -188,8 +188,21 @@ func restoreBigRdbEntry(cli client.Redis, e *rdb.BinEntry) (err error) {
 		return fmt.Errorf("parser is nil : key(%s)", e.Key)
 	}
 
+	// with ReplaceHashTag e.Key is the rewritten name while the parser still emits the source name:
+	// the key argument (first argument; second one of XGROUP) has to follow the rewrite
+	srcKey := e.ObjectParser.Key()
+	rewrite := !bytes.Equal(srcKey, e.Key)
 	count := 0
 	e.ObjectParser.ExecCmd(func(cmd string, args ...interface{}) error {
+		if rewrite && len(args) > 0 {
+			ki := 0
+			if strings.EqualFold(cmd, "xgroup") && len(args) > 1 {
+				ki = 1
+			}
+			if k, ok := args[ki].([]byte); ok && bytes.Equal(k, srcKey) {
+				args[ki] = e.Key
+			}
+		}
 		err = cli.Send(cmd, args...)
 		if err != nil {
 			return err
